@@ -1,6 +1,7 @@
 package checks
 
 import (
+	"crypto/sha256"
 	"fmt"
 	"os"
 	"sort"
@@ -103,6 +104,13 @@ func guardHolds(n *conc.Node, m map[string]string) bool {
 // tier, its first instance is replayed as the witness). Any other
 // counterexample is first replayed against the real generated code; only a
 // reproduced one becomes a VIOLATION, the rest are UNCONFIRMED (inconclusive).
+// InputKey identifies the corpus input of the case independently of its position in the
+// corpus: family, description and injector name (hashed).
+func (ic *InjCase) InputKey() string {
+	h := sha256.Sum256([]byte(ic.Item.Prog.Family + "|" + ic.Item.Prog.Desc + "|" + ic.Decl.Name))
+	return fmt.Sprintf("%x", h[:6])
+}
+
 func (ic *InjCase) report(sigIn map[string]string, m map[string]string, tag string) {
 	c := ic.c
 	// keys starting with "_" are hints for the replay oracle, not part of the signature
@@ -115,8 +123,14 @@ func (ic *InjCase) report(sigIn map[string]string, m map[string]string, tag stri
 			sig[k] = v
 		}
 	}
+	kf, pattern := c.MatchKnownInput(sig, ic.InputKey())
+	known := kf != nil
+	if !known && pattern != nil {
+		// the failing site is that of a listed finding, the input is not one of those it is
+		// listed for: a different violation of the property
+		sig["input"] = "not among the inputs listed for this known finding"
+	}
 	key := sigString(sig)
-	known := c.MatchKnown(sig) != nil
 	ic.st.mu.Lock()
 	status, seen := ic.st.confirmed[key]
 	if !seen {
